@@ -1,7 +1,7 @@
 """Shared driver for C01 / C02 / C08 / C09 (mode-level conformance by symbolic path summaries)."""
 import os
 from ..build import Broken
-from ..facts import Module
+from ..facts import Module, relpath
 from .. import gf2, mode
 from . import aeadlib, duallib
 
@@ -50,6 +50,9 @@ def run_mode(ck, build, kinds, rulemap, helper_fns=True, floor_obl=300):
                 ck.note("per-class rule not decided for tinyjambu_absorb_%s: %s" % (ks, str(e)[:200]))
     fns = aeadlib.cipher_fns(mod, kinds)
     ck.floor("MODE", "cipher entry points analysed", len(fns), 6 * len(kinds))
+    if "LEN" in rulemap:
+        for f in fns:
+            outparam_rule(ck, f, rulemap["LEN"], label)
     for f in fns:
         small_broken = None
         if "SMALL" in rulemap or "SMALLIO" in rulemap or "SMALLMEM" in rulemap:
@@ -73,6 +76,26 @@ def run_mode(ck, build, kinds, rulemap, helper_fns=True, floor_obl=300):
             ck.note("small-length rule not decided for %s: %s" % (f.name, str(small_broken)[:200]))
     ck.floor("MODE", "obligations over path summaries", len(ck.obligations), floor_obl)
     return mod, fns, n
+
+
+def outparam_rule(ck, f, rule, label):
+    """the length out-parameter (*clen / *mlen) is write-only until the function has stored it: every load from it is dominated by a store
+    to it.  A load before the first store makes the result depend on what the caller's variable happened to hold (complete: every load
+    of the function is looked at)"""
+    from .. import ir
+    for nm in ("clen", "mlen"):
+        try:
+            pi = f.param_index(nm)
+        except Exception:
+            continue
+        if pi is None or not (f.params[pi]["ty"] or "").endswith("*"):
+            continue
+        stores = [I for I in f.insts if I.op == "store" and ir.ptr_base(f, tuple(I.ops[1]))[0] == ("a", pi)]
+        loads = [I for I in f.insts if I.op == "load" and ir.ptr_base(f, tuple(I.ops[0]))[0] == ("a", pi)]
+        bad = [L for L in loads if not any(f.dominates(S.id, L.id) for S in stores)]
+        ck.ob(not bad, rule, f.name, "length-out-write-only[%s]" % label, "*%s is never read before it has been stored (%d load(s), %d store(s))" % (nm, len(loads), len(stores)),
+              "*%s is read before the function has stored it: the result depends on what the caller's variable held" % nm,
+              where=relpath(bad[0].where) if bad else relpath("%s:%d" % (f.file, f.line)))
 
 
 def run_pairs(ck, mod, kinds, rulemap, label="H/N0", sizes=("128", "192", "256")):
